@@ -479,9 +479,6 @@ void h_u_first_of_ch(void) { SV *th; char c; unsigned long pos; vf_k = nondet_ul
 /*@GROUP name=u_first_not_of props=C08,C02 kind=U solver=kissat timeout=600 mode=contract enforce=sv_ffno_v_real loops=1 unwind=5 standin=first_not_of when=VF_CT==0@*/
 void h_u_first_not_of(void) { SV *th; SV v; unsigned long pos; vf_k = nondet_ulong(); sv_ffno_v_real(th, v, pos); VF_REACH(); }
 
-
-
-
 /* find_last_of(char,pos) / find_last_not_of(char,pos): do-while loops over the (view,pos) overloads with the one-character set */
 /*@GROUP name=u_last_of_ch props=C08,C02 kind=U mode=contract enforce=sv_flo_c_real loops=1 standin=last_of_ch when=VF_CT==0@*/
 void h_u_last_of_ch(void) { SV *th; char c; unsigned long pos; vf_k = nondet_ulong(); sv_flo_c_real(th, c, pos); VF_REACH(); }
@@ -499,61 +496,64 @@ void h_u_copy(void) { SV *th; char *dest; unsigned long cnt; unsigned long pos; 
  * sub-ranges (lengths la, lb), a[oa+m] != b[ob+m].  The common part is BUILT with CBMC's memcpy model (array-level update, no loop): "all
  * earlier characters are equal" is a universally quantified hypothesis that a ghost index cannot supply.  Every pair of ranges arises
  * for exactly one m, so the proof covers all contents; na, nb <= 65536, every other character is unconstrained. */
+#ifndef VF_NATIVE
 void *memcpy(void *, const void *, unsigned long);
-#define PAIR(na, nb) unsigned long na = nondet_ulong(), nb = nondet_ulong(), m = nondet_ulong(); __CPROVER_assume(na <= BIG && nb <= BIG); \
+#endif
+#define U_PAIR(na, nb) unsigned long na = nondet_ulong(), nb = nondet_ulong(), m = nondet_ulong(); __CPROVER_assume(na <= BIG && nb <= BIG); \
     char *a = (char *)malloc(na), *b = (char *)malloc(nb); __CPROVER_assume(a != 0 && b != 0) /* dfcc links a malloc that may fail */
-#define COMMON(oa, la, ob, lb) __CPROVER_assume(m <= (la) && m <= (lb)); memcpy(b + (ob), a + (oa), m); \
+#define U_PREFIX(oa, la, ob, lb) __CPROVER_assume(m <= (la) && m <= (lb)); memcpy(b + (ob), a + (oa), m); \
     _Bool differ = m < (la) && m < (lb); if (differ) __CPROVER_assume(a[(oa) + m] != b[(ob) + m]); vf_m = m; vf_k = nondet_ulong()
-#define W_SIGNED(oa, ob) (differ && (a[(oa) + m] < 0) != (b[(ob) + m] < 0)) /* witness class of C08_compare_char_signed */
 
 /*@GROUP name=u_traits_compare props=C08,C02 kind=U mode=contract enforce=ct_compare_real loops=1 standin=compare when=VF_CT==0@*/
-void h_u_traits_compare(void) { PAIR(na, nb); __CPROVER_assume(na == nb); COMMON(0, na, 0, nb);
-  VF_KNOWN(C08_compare_char_signed, W_SIGNED(0, 0));
+void h_u_traits_compare(void) { U_PAIR(na, nb); __CPROVER_assume(na == nb); U_PREFIX(0, na, 0, nb);
   ct_compare_real(a, b, na); VF_REACH(); }
 
 /*@GROUP name=u_compare props=C08,C02,C05 kind=U mode=contract enforce=sv_compare_v_real loops=1 standin=compare when=VF_CT==0@*/
-void h_u_compare(void) { PAIR(na, nb); COMMON(0, na, 0, nb); SV_VIEW(h, a, na); SV_VIEW(v, b, nb);
-  VF_KNOWN(C08_compare_char_signed, W_SIGNED(0, 0));
+void h_u_compare(void) { U_PAIR(na, nb); U_PREFIX(0, na, 0, nb); SV_VIEW(h, a, na); SV_VIEW(v, b, nb);
   sv_compare_v_real(&h, v); VF_REACH(); }
 
 /*@GROUP name=u_compare_sub props=C08,C02,C05 kind=U mode=contract enforce=sv_compare_pcvpc_real loops=1 standin=compare when=VF_CT==0@*/
-void h_u_compare_sub(void) { PAIR(na, nb); unsigned long p1 = nondet_ulong(), c1 = nondet_ulong(), p2 = nondet_ulong(), c2 = nondet_ulong();
+void h_u_compare_sub(void) { U_PAIR(na, nb); unsigned long p1 = nondet_ulong(), c1 = nondet_ulong(), p2 = nondet_ulong(), c2 = nondet_ulong();
   __CPROVER_assume(p1 <= na && p2 <= nb); unsigned long la = r_min(c1, na - p1), lb = r_min(c2, nb - p2);
-  COMMON(p1, la, p2, lb); SV_VIEW(h, a, na); SV_VIEW(v, b, nb);
-  VF_KNOWN(C08_compare_char_signed, W_SIGNED(p1, p2));
+  U_PREFIX(p1, la, p2, lb); SV_VIEW(h, a, na); SV_VIEW(v, b, nb);
   sv_compare_pcvpc_real(&h, p1, c1, v, p2, c2); VF_REACH(); }
 
+/*@GROUP name=u_compare_pcv props=C08,C02,C05 kind=U mode=contract enforce=sv_compare_pcv_real loops=1 standin=compare when=VF_CT==0@*/
+void h_u_compare_pcv(void) { U_PAIR(na, nb); unsigned long p1 = nondet_ulong(), c1 = nondet_ulong(); __CPROVER_assume(p1 <= na);
+  U_PREFIX(p1, r_min(c1, na - p1), 0, nb); SV_VIEW(h, a, na); SV_VIEW(v, b, nb);
+  sv_compare_pcv_real(&h, p1, c1, v); VF_REACH(); }
+
 /*@GROUP name=u_equal props=C08,C02,C05 kind=U mode=contract enforce=sv_eq_real loops=1 standin=relational when=VF_CT==0@*/
-void h_u_equal(void) { PAIR(na, nb); COMMON(0, na, 0, nb); SV_VIEW(h, a, na); SV_VIEW(v, b, nb); sv_eq_real(h, v); VF_REACH(); }
+void h_u_equal(void) { U_PAIR(na, nb); U_PREFIX(0, na, 0, nb); SV_VIEW(h, a, na); SV_VIEW(v, b, nb); sv_eq_real(h, v); VF_REACH(); }
 
 /*@GROUP name=u_starts_with props=C08,C02,C05 kind=U mode=contract enforce=sv_starts_with_v_real loops=1 standin=affix when=VF_CT==0@*/
-void h_u_starts_with(void) { PAIR(na, nb); COMMON(0, na, 0, nb); SV_VIEW(h, a, na); SV_VIEW(v, b, nb); sv_starts_with_v_real(&h, v); VF_REACH(); }
+void h_u_starts_with(void) { U_PAIR(na, nb); U_PREFIX(0, na, 0, nb); SV_VIEW(h, a, na); SV_VIEW(v, b, nb); sv_starts_with_v_real(&h, v); VF_REACH(); }
 
 /*@GROUP name=u_ends_with props=C08,C02,C05 kind=U mode=contract enforce=sv_ends_with_v_real loops=1 standin=affix when=VF_CT==0@*/
-void h_u_ends_with(void) { PAIR(na, nb); unsigned long oa = nb <= na ? na - nb : 0; COMMON(oa, na - oa, 0, nb); SV_VIEW(h, a, na); SV_VIEW(v, b, nb);
+void h_u_ends_with(void) { U_PAIR(na, nb); unsigned long oa = nb <= na ? na - nb : 0; U_PREFIX(oa, na - oa, 0, nb); SV_VIEW(h, a, na); SV_VIEW(v, b, nb);
   sv_ends_with_v_real(&h, v); VF_REACH(); }
 
 /* <, <=, >, >= (one contract each) */
 /*@GROUP name=u_less props=C08,C02 kind=U mode=contract enforce=sv_lt_real loops=1 standin=relational when=VF_CT==0@*/
-void h_u_less(void) { PAIR(na, nb); COMMON(0, na, 0, nb); SV_VIEW(h, a, na); SV_VIEW(v, b, nb);
-  VF_KNOWN(C08_compare_char_signed, W_SIGNED(0, 0));
+void h_u_less(void) { U_PAIR(na, nb); U_PREFIX(0, na, 0, nb); SV_VIEW(h, a, na); SV_VIEW(v, b, nb);
   sv_lt_real(h, v); VF_REACH(); }
 
 /*@GROUP name=u_less_equal props=C08,C02 kind=U mode=contract enforce=sv_le_real loops=1 standin=relational when=VF_CT==0@*/
-void h_u_less_equal(void) { PAIR(na, nb); COMMON(0, na, 0, nb); SV_VIEW(h, a, na); SV_VIEW(v, b, nb);
-  VF_KNOWN(C08_compare_char_signed, W_SIGNED(0, 0));
+void h_u_less_equal(void) { U_PAIR(na, nb); U_PREFIX(0, na, 0, nb); SV_VIEW(h, a, na); SV_VIEW(v, b, nb);
   sv_le_real(h, v); VF_REACH(); }
 
 /*@GROUP name=u_greater props=C08,C02 kind=U mode=contract enforce=sv_gt_real loops=1 standin=relational when=VF_CT==0@*/
-void h_u_greater(void) { PAIR(na, nb); COMMON(0, na, 0, nb); SV_VIEW(h, a, na); SV_VIEW(v, b, nb);
-  VF_KNOWN(C08_compare_char_signed, W_SIGNED(0, 0));
+void h_u_greater(void) { U_PAIR(na, nb); U_PREFIX(0, na, 0, nb); SV_VIEW(h, a, na); SV_VIEW(v, b, nb);
   sv_gt_real(h, v); VF_REACH(); }
 
 /*@GROUP name=u_greater_equal props=C08,C02 kind=U mode=contract enforce=sv_ge_real loops=1 standin=relational when=VF_CT==0@*/
-void h_u_greater_equal(void) { PAIR(na, nb); COMMON(0, na, 0, nb); SV_VIEW(h, a, na); SV_VIEW(v, b, nb);
-  VF_KNOWN(C08_compare_char_signed, W_SIGNED(0, 0));
+void h_u_greater_equal(void) { U_PAIR(na, nb); U_PREFIX(0, na, 0, nb); SV_VIEW(h, a, na); SV_VIEW(v, b, nb);
   sv_ge_real(h, v); VF_REACH(); }
 
-/* find(view,pos): needle of <= 3 characters (the empty one included), unbounded haystack, any pos */
-/*@GROUP name=u_find props=C08,C02,C05 kind=U mode=contract enforce=sv_find_v_real loops=1 standin=find when=VF_CT==0@*/
+/* find(view,pos): needle of <= 2 characters (the empty one included), unbounded haystack, any pos */
+/*@GROUP name=u_find props=C08,C02,C05 kind=U mode=contract enforce=sv_find_v_real loops=1 standin=find solver=kissat timeout=400 when=VF_CT==0@*/
 void h_u_find(void) { SV *th; SV v; unsigned long pos; vf_k = nondet_ulong(); sv_find_v_real(th, v, pos); VF_REACH(); }
+
+/* rfind(view,pos): needle of <= 1 character (the empty one included), unbounded haystack, any pos: find_end / search under loop contracts */
+/*@GROUP name=u_rfind props=C08,C02 kind=U mode=contract enforce=sv_rfind_v_real loops=1 standin=rfind cost=3 when=VF_CT==0@*/
+void h_u_rfind(void) { SV *th; SV v; unsigned long pos; vf_k = nondet_ulong(); sv_rfind_v_real(th, v, pos); VF_REACH(); }
